@@ -93,12 +93,18 @@ def gen_case(seed, n):
             lines.append([r.choice(PASSWORDS + ["disable", "none"]), ["all"]])
     # ---- first match wins: 'all' lines anywhere (also BEFORE lines that name actions explicitly) and actions named twice
     r1 = random.Random(f"C61:order:{seed}:{n}")
-    if lines and r1.random() < 0.5:
+    if lines and r1.random() < 0.6:
         if lines[-1][1] == ["all"]:
             if r1.random() < 0.7:
                 lines.insert(r1.randrange(len(lines)), lines.pop())
-        elif r1.random() < 0.5:
+        elif r1.random() < 0.6:
             lines.insert(r1.randrange(len(lines)), [r1.choice(PASSWORDS + ["disable", "none"]), ["all"]])
+        ai = [i for i, l in enumerate(lines) if l[1] == ["all"]]
+        if ai and ai[0] < len(lines) - 1 and r1.random() < 0.7:
+            # the shadowing shape: a strict 'all' line first, a laxer explicit line after it (which must stay without effect)
+            lines[ai[0]][0] = r1.choice(PASSWORDS + ["disable"])
+            j = r1.randrange(ai[0] + 1, len(lines))
+            lines[j][0] = r1.choice(["none"] + [p_ for p_ in PASSWORDS if p_ != lines[ai[0]][0]])
         named = [i for i, l in enumerate(lines) if l[1] != ["all"]]
         if len(named) >= 2 and r1.random() < 0.5:
             i, j = sorted(r1.sample(named, 2))
@@ -134,7 +140,7 @@ def gen_case(seed, n):
             q["target"], q["odd"] = "/Squid-Internal-Mgr/" + act, "prefix-case"
         else:
             q["target"], q["odd"] = PFX + "menu/../" + act, "dotdot"
-        q["pwkind"] = r.choice(["none", "none", "right", "right", "right", "right", "right", "other", "mutated", "mutated", "prefix", "prefix", "empty", "nocolon", "scheme-case", "literal-disable", "literal-none", "garbled"])
+        q["pwkind"] = r.choice(["none", "none", "right", "right", "right", "right", "right", "other", "other", "mutated", "mutated", "prefix", "prefix", "empty", "nocolon", "scheme-case", "literal-disable", "literal-none", "garbled"])
         q["mut"] = r.randrange(4)
         q["method"] = r.choice(["GET", "GET", "GET", "POST", "HEAD"]) if r.random() < 0.2 else "GET"
         reqs.append(q)
@@ -208,6 +214,11 @@ def auth_header(c, q):
     if k == "right":
         return "Basic " + b64("mgr:" + right)
     if k == "other":
+        # "a password configured for something else": if a LATER cachemgr_passwd line (shadowed by the first match) names this
+        # action or 'all' with another password, present exactly that one half of the time
+        later = [p_ for p_, acts in c["passwd_lines"] if (q["action"] in acts or "all" in acts) and p_ not in ("disable", "none") and p_ != right]
+        if later and q["mut"] >= 2:
+            return "Basic " + b64("mgr:" + later[q["mut"] % len(later)])
         return "Basic " + b64("mgr:" + [p for p in PASSWORDS if p != right][q["mut"] % 2])
     if k == "mutated":
         return "Basic " + b64("mgr:" + [right + "x", right[:-1], right.swapcase(), " " + right][q["mut"]])
